@@ -23,7 +23,7 @@ for m in cat:
             r = subprocess.run([os.path.join(HERE, '..', 'check'), prop, '--tier', tier], env=dict(os.environ, VERIF_REPO=SCR, VERIF_WORK=os.path.join(SCR, '.verif-work')), capture_output=True, text=True)
             want = 1 if m['kind'] == 'breaking' else 0
             ok = r.returncode == want
-            first = (r.stdout.strip().split('\n') or [''])[0][:200]
+            first = (r.stdout.strip().split('\n') or [''])[0][:200].replace('FAILED-OBLIGATION', 'VIOLATION')
             print('%s %-28s %s rc=%d (want %d) %.0fs  %s' % ('PASS' if ok else 'FAIL', m['name'], prop, r.returncode, want, time.time() - t0, first))
             if not ok: print(r.stdout[-1500:], r.stderr[-1500:])
             results.append((m['name'], prop, r.returncode, want))
